@@ -86,22 +86,33 @@ theorem C18_probe_positions (bits k : Nat) (key : Bytes) (hbits : 0 < bits) :
 
 /-- `key_may_match`, on ANY filter of at least 2 bytes whose last byte `k` is at most 30 (shorter
     filters and larger `k` match everything), tests exactly the `k` probe positions of the key in the
-    bit array formed by all bytes but the last — `8·(len−1)` bits (mod 2^32), so every tested position
-    is `< 8·(len−1)` — and answers their conjunction -/
+    bit array formed by all bytes but the last — `8·(len−1)` bits, computed in 64 bits since fix D19
+    (`ConstsTie.bloom_bits_width`; it was mod 2^32), so every tested position is `< 8·(len−1)` — and
+    answers their conjunction -/
 theorem C18_reader_tests_probes (key filter : Bytes) (hlen : 2 ≤ filter.length)
     (hk : (filter.getD (filter.length - 1) 0).toNat ≤ 30) :
     Bloom.keyMayMatch key filter =
-      (Bloom.keyProbes (((filter.length - 1) * 8) % 4294967296)
+      (Bloom.keyProbes (((filter.length - 1) * 8) % 2 ^ 64)
           (filter.getD (filter.length - 1) 0).toNat key).all
         (Bloom.testBit (filter.take (filter.length - 1))) :=
   Bloom.keyMayMatch_eq_all key filter hlen hk
 
+/-- the same without the reduction, for every filter of at most 2^61 bytes (2 EiB; in particular every
+    filter stored in a table file): exactly `8·(len−1)` bits -/
+theorem C18_reader_tests_probes_small (key filter : Bytes) (hlen : 2 ≤ filter.length)
+    (hsmall : filter.length ≤ 2 ^ 61)
+    (hk : (filter.getD (filter.length - 1) 0).toNat ≤ 30) :
+    Bloom.keyMayMatch key filter =
+      (Bloom.keyProbes ((filter.length - 1) * 8) (filter.getD (filter.length - 1) 0).toNat key).all
+        (Bloom.testBit (filter.take (filter.length - 1))) :=
+  Bloom.keyMayMatch_eq_all_small key filter hlen hsmall hk
+
 /-- the probes tested are the ones set. For a filter created for `keys` at `b` bits per key (bit array
-    below 2^32 bits: `FitsU32`, every filter below 512 MiB), with `m = 8·nbytes` bits and `k = kOf b`:
+    below 2^64 bits: `FitsBits`, every filter below 2 EiB), with `m = 8·nbytes` bits and `k = kOf b`:
     the filter is the bit array followed by the byte `k`; a bit of the array is set iff it is one of the
     `k` probe positions of one of the keys; hence `key_may_match` passes a key iff each of its `k` probe
     positions is a probe position of some member — in particular it passes every member. -/
-theorem C18_probes_are_the_ones_set (b : Nat) (keys : List Bytes) (hfit : Bloom.FitsU32 b keys) :
+theorem C18_probes_are_the_ones_set (b : Nat) (keys : List Bytes) (hfit : Bloom.FitsBits b keys) :
     ∃ arr : Bytes, Bloom.createFilter b keys = arr ++ [UInt8.ofNat (Bloom.kOf b)]
       ∧ arr.length = Bloom.nbytesOf b keys
       ∧ Bloom.nbytesOf b keys = (if keys.length * b < 64 then 8 else (keys.length * b + 7) / 8)
@@ -136,4 +147,5 @@ end Sst
 #print axioms Sst.C18_default_policy
 #print axioms Sst.C18_probe_positions
 #print axioms Sst.C18_reader_tests_probes
+#print axioms Sst.C18_reader_tests_probes_small
 #print axioms Sst.C18_probes_are_the_ones_set
